@@ -1050,6 +1050,11 @@ func (vc *VC) appendOp(st *State, s, t Val, pos token.Position) Val {
 				if kk, ok := isSmallLit(k, 15); ok && int(kk) < len(litLeaf) {
 					return litLeaf[kk]
 				}
+				r := litLeaf[len(litLeaf)-1]
+				for j := len(litLeaf) - 2; j >= 0; j-- {
+					r = ite(eq(k, i64(int64(j))), litLeaf[j], r)
+				}
+				return r
 			}
 			return sel(sel(h, t.Sl[0]), bvAdd(t.Sl[1], k))
 		}
@@ -1250,6 +1255,11 @@ func (vc *VC) appendOwned(st *State, s, t Val, pos token.Position) Val {
 				if kk, ok := isSmallLit(k, 15); ok && int(kk) < len(litLeaf) {
 					return litLeaf[kk]
 				}
+				r := litLeaf[len(litLeaf)-1]
+				for j := len(litLeaf) - 2; j >= 0; j-- {
+					r = ite(eq(k, i64(int64(j))), litLeaf[j], r)
+				}
+				return r
 			}
 			return sel(sel(h, t.Sl[0]), bvAdd(t.Sl[1], k))
 		}
@@ -1259,6 +1269,11 @@ func (vc *VC) appendOwned(st *State, s, t Val, pos token.Position) Val {
 		if lok {
 			for k := int64(0); k < ln; k++ {
 				vc.sc.assert(eq(sel(na, i64(k)), sel(sel(h, a), bvAdd(o, i64(k)))))
+			}
+		} else if mx, ok := vc.sc.maxSmallLit(l, 0); ok && mx <= 8 {
+			// length is one of a few small literals: write the copy out, guarded by k < len
+			for k := int64(0); k < mx; k++ {
+				vc.sc.assert(implies(sx("bvslt", i64(k), l), eq(sel(na, i64(k)), sel(sel(h, a), bvAdd(o, i64(k))))))
 			}
 		} else {
 			parts = append(parts, implies(and(sx("bvsle", i64(0), i), sx("bvslt", i, l)), eq(sel(na, i), sel(sel(h, a), bvAdd(o, i)))))
